@@ -14,6 +14,7 @@ import (
 	"math/big"
 	"os"
 	"path/filepath"
+	"strconv"
 	"strings"
 	"time"
 	"unicode/utf8"
@@ -42,7 +43,16 @@ func closeOut() {
 	}
 }
 
+// narrow is the value a Go int on this platform holds for x (identity on 64-bit platforms): what is recorded is what
+// was passed.
+func narrow(x int64) int64 { return int64(int(x)) }
+
 func emit(e Event) {
+	if strconv.IntSize == 32 {
+		if op, _ := e["op"].(string); op == "Reset" || op == "Cut" {
+			e["arch"] = "386"
+		}
+	}
 	b, err := json.Marshal(e)
 	if err != nil {
 		fatal(err)
